@@ -528,13 +528,14 @@ def build_attr_defaults(trees, sites):
         used = sorted(set(s['scope']['expr'] for s in sites if s['cls'] == cls and s['scope'] is not None
                           and s['scope']['expr'] in ATTR_OF_TEXPR))
         owner = ATTR_OWNER[cls]
-        init = class_methods(trees[fname], owner, fname).get('__init__')
+        ofile = dict((n, f) for n, f, b in CLASSES).get(owner, fname)     # HttpRelay lives beside HttpRelayClient
+        init = class_methods(trees[ofile], owner, ofile).get('__init__')
         if init is None:
             raise Unclassified('%s: %s has no __init__' % (fname, owner))
         if cls in ('MaildropRelay', 'DovecotLdaRelay'):
             check_passthrough(trees[fname], cls, fname)
         for e in used:
-            out.append(dict(cls=cls, expr=e, attr=ATTR_OF_TEXPR[e], chain=attr_chain(init, ATTR_OF_TEXPR[e], fname, owner)))
+            out.append(dict(cls=cls, expr=e, attr=ATTR_OF_TEXPR[e], chain=attr_chain(init, ATTR_OF_TEXPR[e], ofile, owner)))
     return out
 
 
